@@ -178,6 +178,9 @@ def fresh_ids(t, used, start=10000):
 ZOO = {
     # ambiguous on purpose: "1+2+3" has two derivations, so the tree a caller hands in need not be the parser's first one
     "amb": {"<start>": ["<e>"], "<e>": ["<e>+<e>", "<d>", "(<e>)"], "<d>": ["1", "2", "3"]},
+    # the only alternative leading from <pair> to <item> mentions <item> twice (a path through a repeated symbol)
+    "pairs": {"<start>": ["<list>"], "<list>": ["<pair>", "<pair>;<list>"], "<pair>": ["<item>,<item>"],
+              "<item>": ["<num>", "(<pair>)"], "<num>": ["1", "2"]},
     "lang": {"<start>": ["<stmt>"], "<stmt>": ["<assgn> ; <stmt>", "<assgn>"], "<assgn>": ["<var> := <rhs>"],
              "<rhs>": ["<var>", "<digit>"], "<var>": list("abc"), "<digit>": list("012")},
     "blk": {"<start>": ["<block>"], "<block>": ["{<stmts>}"], "<stmts>": ["<stmt><stmts>", "<stmt>"],
